@@ -179,6 +179,14 @@ package cache
 //@ extern io.Copy(dst, src)
 //@   ensures 0 <= result0 && result0 <= B62()
 
+//@ extern strings.HasPrefix(s, prefix)
+//@   pure
+//@   ensures result == hasPrefix(s, prefix)
+
+//@ extern (*regexp.Regexp).MatchString(re, s)
+//@   pure
+//@   ensures result == reMatch(ref(re), s)
+
 //@ extern context.WithCancel(parent)
 //@   pure
 //@   ensures result0 != nil && result1 != nil
